@@ -1,4 +1,6 @@
-import PbVerif.Lemmas.MsgAlg
+import PbVerif.Lemmas.MsgAlgClone
+import PbVerif.Lemmas.MsgAlgUnknown
+import PbVerif.Lemmas.MsgAlgExamples
 /-
 C30 — proto.Equal is an equivalence (model: `Pb.eqMsg`, `Pb.unknownEq`).
 -/
@@ -32,6 +34,40 @@ theorem unknownEq_trans (x y z : List Byte) (h1 : unknownEq x y = true) (h2 : un
     · rw [a2] at b1
       cases b1
       exact Or.inr ⟨rx, rz, a1, b2, fun n => (a3 n).trans (b3 n)⟩
+
+/-- **`unknownEq` characterised**: two well-formed unknown-field strings (`recsOf` = the sequence of
+records `(number, raw bytes)`) are equal iff, for every field number, the concatenation of the raw
+records of that number is the same — whatever the interleaving between different numbers -/
+theorem unknownEq_iff (x y : List Byte) (rx ry : List (Nat × List Byte))
+    (hx : recsOf x = some rx) (hy : recsOf y = some ry) :
+    unknownEq x y = true ↔ ∀ n, unknownOf n rx = unknownOf n ry := by
+  rw [unknownEq_spec]
+  constructor
+  · rintro ⟨_, h | ⟨rx', ry', h1, h2, h3⟩⟩
+    · subst h; rw [hx] at hy; cases hy; intro n; rfl
+    · rw [hx] at h1; rw [hy] at h2; cases h1; cases h2; exact h3
+  · intro h
+    refine ⟨?_, Or.inr ⟨rx, ry, hx, hy, h⟩⟩
+    rw [recsOf_length hx, recsOf_length hy]
+    exact totalLen_eq_of_unknownOf _ rx ry (Nat.le_refl _) h
+
+/-- records of field 1 and field 2 interleaved differently: equal; the hypotheses are satisfiable -/
+example : recsOf [0x08#8, 0x01#8, 0x10#8, 0x02#8] = some [(1, [0x08#8, 0x01#8]), (2, [0x10#8, 0x02#8])] ∧
+    unknownEq [0x08#8, 0x01#8, 0x10#8, 0x02#8] [0x10#8, 0x02#8, 0x08#8, 0x01#8] = true ∧
+    unknownEq [0x08#8, 0x01#8, 0x08#8, 0x02#8] [0x08#8, 0x02#8, 0x08#8, 0x01#8] = false := by
+  decide
+
+/-- malformed unknown bytes are equal only to themselves (bytes are lists: nil and empty coincide) -/
+theorem unknownEq_malformed (x y : List Byte) (hx : recsOf x = none) :
+    unknownEq x y = true ↔ x = y := by
+  rw [unknownEq_spec]
+  constructor
+  · rintro ⟨_, h | ⟨rx, _, h1, _⟩⟩
+    · exact h
+    · rw [hx] at h1; cases h1
+  · intro h; exact ⟨by rw [h], Or.inl h⟩
+
+theorem unknownEq_nil : unknownEq [] [] = true := unknownEq_refl []
 
 /-! ### transitivity — holds for ALL schemas and ALL message values, no hypothesis -/
 
@@ -473,5 +509,163 @@ theorem eqMapVal_symm (S : Schema) : ∀ (x : Val) (tl ys : Vals) (ei : Nat), wf
   | .num _, _, _, _, _, _, _, _, hx, _ => by cases hx
   | .bytes _, _, _, _, _, _, _, _, hx, _ => by cases hx
 end
+
+/-! ### a message equals its clone (populated well-formed values) -/
+
+mutual
+theorem eqMsg_clone (S : Schema) : ∀ (m : Msg) (mi : Nat), pwfMsg S mi m = true →
+    eqMsg S mi m (clone S mi m) = true
+  | .mk fs unk, mi, h => by
+    rw [pwfMsg] at h
+    unfold clone
+    rw [Msg.empty, mergeMsg_mk, eqMsg]
+    simp only [Bool.and_eq_true, beq_iff_eq, List.nil_append]
+    refine ⟨⟨?_, (nums_cloneFields_length S _ fs h).symm⟩, unknownEq_refl unk⟩
+    refine eqFields_cloneAux S fs _ _ h (fun n fv f hg hf => ?_)
+    rw [get?_cloneFields S _ fs h n, hg, hf]
+theorem eqFields_cloneAux (S : Schema) : ∀ (fs R : Fields) (d : MsgD), pwfFields S d fs = true →
+    (∀ n fv f, fs.get? n = some fv → d.find n = some f → R.get? n = some (cloneFVal S f fv)) →
+    eqFields S d fs R = true
+  | .nil, _, _, _, _ => by rw [eqFields]
+  | .cons n fv tl, R, d, h, hR => by
+    rw [pwfFields, Bool.and_eq_true, Bool.and_eq_true, Bool.and_eq_true] at h
+    rw [eqFields, Bool.and_eq_true]
+    constructor
+    · have h1 := h.1.1.1
+      split at h1
+      · rename_i f hf
+        have := hR n fv f (by rw [Fields.get?_cons]; simp) hf
+        simp only [hf, this]
+        exact eqFVal_clone S fv f h1
+      · cases h1
+    · refine eqFields_cloneAux S tl R d h.2 (fun m fv' f hg hf => hR m fv' f ?_ hf)
+      rw [Fields.get?_cons]
+      split
+      · rename_i hnm
+        subst hnm
+        have := h.1.1.2
+        rw [hg] at this
+        cases this
+      · exact hg
+theorem eqFVal_clone (S : Schema) : ∀ (fv : FVal) (f : Field), pwfFVal S f fv = true →
+    eqFVal S f fv (cloneFVal S f fv) = true
+  | .one (.msg sm), f, h => by
+    rw [pwfFVal, Bool.and_eq_true, pwfVal] at h
+    rw [cloneFVal, eqFVal, eqVal]
+    exact eqMsg_clone S sm f.sub h.1
+  | .one (.num n), f, _ => by
+    rw [cloneFVal, eqFVal, eqVal]
+    · exact numEq_refl _ _
+    · intro sm hh; cases hh
+  | .one (.bytes b), f, _ => by
+    rw [cloneFVal, eqFVal, eqVal]
+    · exact beq_self_eq_true b
+    · intro sm hh; cases hh
+  | .many vs, f, h => by
+    rw [pwfFVal, Bool.and_eq_true] at h
+    rw [cloneFVal]
+    by_cases hm : f.card = .map
+    · simp only [hm, if_true] at h ⊢
+      rw [eqFVal]
+      simp only [hm, if_true, Bool.and_eq_true, beq_iff_eq]
+      have hok := entriesOK_of_pwf h.2
+      constructor
+      · refine eqMapVals_cloneAux S vs _ f.sub h.2 (fun k e hl => ?_)
+        rw [lookupEntry_mergeMapVals S f.sub vs .nil hok k, hl]
+      · rw [mergeMapVals_length S f.sub vs .nil hok (fun _ _ _ => rfl)]
+        simp [Vals.toList]
+    · simp only [hm, if_false] at h ⊢
+      rw [eqFVal]
+      simp only [hm, if_false]
+      exact eqVals_clone S vs f h.2
+theorem eqVals_clone (S : Schema) : ∀ (vs : Vals) (f : Field), pwfVals S f vs = true →
+    eqVals S f vs (cloneVals S f vs) = true
+  | .nil, _, _ => by rw [cloneVals, eqVals]
+  | .cons (.msg sm) tl, f, h => by
+    rw [pwfVals, Bool.and_eq_true, pwfVal] at h
+    rw [cloneVals, cloneVal, eqVals, Bool.and_eq_true, eqVal]
+    exact ⟨eqMsg_clone S sm f.sub h.1, eqVals_clone S tl f h.2⟩
+  | .cons (.num n) tl, f, h => by
+    rw [pwfVals, Bool.and_eq_true] at h
+    rw [cloneVals, cloneVal, eqVals, Bool.and_eq_true, eqVal]
+    · exact ⟨numEq_refl _ _, eqVals_clone S tl f h.2⟩
+    · intro sm hh; cases hh
+  | .cons (.bytes b) tl, f, h => by
+    rw [pwfVals, Bool.and_eq_true] at h
+    rw [cloneVals, cloneVal, eqVals, Bool.and_eq_true, eqVal]
+    · exact ⟨beq_self_eq_true b, eqVals_clone S tl f h.2⟩
+    · intro sm hh; cases hh
+theorem eqMapVals_cloneAux (S : Schema) : ∀ (vs R : Vals) (ei : Nat), pwfEntries S ei vs = true →
+    (∀ k e, lookupEntry vs k = some e → lookupEntry R k = some (clone S ei e)) →
+    eqMapVals S ei vs R = true
+  | .nil, _, _, _, _ => by rw [eqMapVals]
+  | .cons (.msg e) tl, R, ei, h, hR => by
+    obtain ⟨e', k, he, hk, hs, hl, hw, htl⟩ := pwfEntries_cons_msg h
+    cases he
+    have hke : entryHasKey e k = true := (entryHasKey_iff _ _).mpr ⟨hk, hs⟩
+    rw [eqMapVals, Bool.and_eq_true, eqMapVal]
+    constructor
+    · have := hR k e (by rw [lookupEntry_cons_msg, hke]; rfl)
+      simp only [hk, this]
+      exact eqMsg_clone S e ei hw
+    · refine eqMapVals_cloneAux S tl R ei htl (fun k' e' hl' => hR k' e' ?_)
+      rw [lookupEntry_cons_msg]
+      split
+      · rename_i hh
+        have := ((entryHasKey_iff _ _).mp hh).1
+        rw [hk] at this
+        cases this
+        rw [hl] at hl'
+        cases hl'
+      · exact hl'
+  | .cons (.num n) tl, _, _, h, _ => by
+    obtain ⟨e', _, he, _⟩ := pwfEntries_cons_msg h
+    cases he
+  | .cons (.bytes b) tl, _, _, h, _ => by
+    obtain ⟨e', _, he, _⟩ := pwfEntries_cons_msg h
+    cases he
+end
+
+/-! ### the hypotheses are satisfiable, and they are needed -/
+
+example : pwfMsg Ex.S0 0 Ex.m0 = true ∧ wfMsg Ex.S0 0 Ex.m0 = true := by decide
+/-- NaN in field 2, out-of-order fields, map, unknown bytes: equal to itself and to its clone -/
+example : eqMsg Ex.S0 0 Ex.m0 Ex.m0 = true := eqMsg_refl _ _ _ (by decide)
+example : eqMsg Ex.S0 0 Ex.m0 (clone Ex.S0 0 Ex.m0) = true := eqMsg_clone _ _ _ (by decide)
+
+/-- reflexivity fails for a field the descriptor does not declare -/
+theorem eqMsg_refl_needs_declared :
+    eqMsg ⟨[⟨[]⟩]⟩ 0 (.mk (.cons 1 (.one (.num 0)) .nil) []) (.mk (.cons 1 (.one (.num 0)) .nil) []) = false := by
+  decide
+
+def S1 : Schema := ⟨[⟨[{ num := 1, kind := .int32, card := .optional },
+                       { num := 2, kind := .int32, card := .optional },
+                       { num := 3, kind := .message, card := .map, sub := 1 }]⟩,
+                     ⟨[{ num := 1, kind := .int32, card := .optional },
+                       { num := 2, kind := .int32, card := .optional }]⟩]⟩
+def one (n : Nat) : FVal := .one (.num n)
+def ent (k v : Nat) : Val := .msg (.mk (.cons 1 (one k) (.cons 2 (one v) .nil)) [])
+
+/-- reflexivity fails when a field number occurs twice -/
+theorem eqMsg_refl_needs_distinct :
+    let m : Msg := .mk (.cons 1 (one 1) (.cons 1 (one 2) .nil)) []
+    eqMsg S1 0 m m = false := by decide
+
+/-- symmetry fails when a field number occurs twice in the left message -/
+theorem eqMsg_symm_needs_distinct :
+    let x : Msg := .mk (.cons 1 (one 1) (.cons 1 (one 1) .nil)) []
+    let y : Msg := .mk (.cons 1 (one 1) (.cons 2 (one 2) .nil)) []
+    eqMsg S1 0 x y = true ∧ eqMsg S1 0 y x = false := by decide
+
+/-- symmetry fails when a map key occurs twice in the left message -/
+theorem eqMsg_symm_needs_distinct_keys :
+    let x : Msg := .mk (.cons 3 (.many (.cons (ent 1 1) (.cons (ent 1 1) .nil))) .nil) []
+    let y : Msg := .mk (.cons 3 (.many (.cons (ent 1 1) (.cons (ent 2 2) .nil))) .nil) []
+    eqMsg S1 0 x y = true ∧ eqMsg S1 0 y x = false := by decide
+
+/-- `eqMsg_clone` fails for an unpopulated (empty) list held as a field value: `clone` drops it -/
+theorem eqMsg_clone_needs_populated :
+    let m : Msg := .mk (.cons 1 (.many .nil) .nil) []
+    wfMsg S1 0 m = true ∧ eqMsg S1 0 m (clone S1 0 m) = false := by decide
 
 end C30
